@@ -157,17 +157,19 @@ func (tw *TimeWheel) add(task *Task) {
 	tw.buckets[index][task.key] = task
 }
 
+// delayTicks is the delay in wheel ticks, rounded up: a task must never fire
+// before its delay has elapsed, also when the delay is not a multiple of the tick.
+func (tw *TimeWheel) delayTicks(delay time.Duration) int {
+	return int((delay + tw.tick - 1) / tw.tick)
+}
+
 func (tw *TimeWheel) calculateRound(delay time.Duration) (round int) {
-	delaySeconds := int(delay.Seconds())
-	tickSeconds := int(tw.tick.Seconds())
-	round = delaySeconds / tickSeconds / tw.bucketsNum
+	round = tw.delayTicks(delay) / tw.bucketsNum
 	return
 }
 
 func (tw *TimeWheel) calculateIndex(delay time.Duration) (index int) {
-	delaySeconds := int(delay.Seconds())
-	tickSeconds := int(tw.tick.Seconds())
-	index = (tw.currentIndex + delaySeconds/tickSeconds) % tw.bucketsNum
+	index = (tw.currentIndex + tw.delayTicks(delay)) % tw.bucketsNum
 	return
 }
 
